@@ -60,6 +60,8 @@ inductive B where
   | put (o : Nat)      -- creates or overwrites object `o` under the collection prefix
   | del (o : Nat)      -- deletes object `o`
   | fail               -- the body returns `Err` here (after whatever it already did)
+  | poison             -- the body itself calls `self.poison(..)` (add/update/remove on an unknown-outcome storage
+                       -- failure); `flush_inner` never does (`Props/C06.close_body_never_poisons`)
   deriving DecidableEq, Repr
 
 /-- how a call ended -/
@@ -69,6 +71,11 @@ inductive Res where
   | rejRo              -- rejected: "Collection is read-only"
   | err                -- admitted, the body failed
   | ignored            -- `set_read_only(false)` refused
+  deriving DecidableEq, Repr
+
+/-- who made a storage mutation -/
+inductive W where
+  | mut | close | drop
   deriving DecidableEq, Repr
 
 inductive Pc where
@@ -140,6 +147,37 @@ def Thread.dropRegion (t : Thread) : Bool :=
   | .dDel _ _ | .dStore => true
   | _ => false
 
+/-- the closer between its re-check under the gate and `lifecycle.store(CLOSED)` -/
+def Thread.closeRegion (t : Thread) : Bool :=
+  match t.pc with
+  | .cArm | .cBody _ | .cStore => true
+  | _ => false
+
+/-- a mutator inside its armed body -/
+def Thread.mutBody (t : Thread) : Bool :=
+  match t.pc with
+  | .mBody _ => true
+  | _ => false
+
+/-- `begin_delete` has published DELETING (or found DELETING / DELETED) -/
+def Thread.dropStarted (t : Thread) : Bool :=
+  match t.pc with
+  | .dRo | .dWaitGate | .dGated | .dDel _ _ | .dStore | .dRelease _ => true
+  | _ => false
+
+/-- has not started its body: nothing it does can have reached storage yet -/
+def Thread.preBody (t : Thread) : Bool :=
+  match t.pc with
+  | .mStart | .mLeased | .mAdmitted | .cStart | .cPublished | .cWaitGate | .cGated | .cArm
+  | .dStart | .dRo | .dWaitGate | .dGated | .rCheck _ | .rStore _ | .bStart _ => true
+  | _ => false
+
+/-- the body ran to its end (with either result): whatever it wrote is a complete effect -/
+def Thread.postBody (t : Thread) : Bool :=
+  match t.pc with
+  | .mDisarmed _ | .mRelease _ | .cFailed | .cStore | .cRelease _ | .done _ | .dropped => true
+  | _ => false
+
 /-! ## shared state -/
 
 structure Shared where
@@ -152,18 +190,18 @@ structure Shared where
   gateR : List Nat
   /-- objects present under the collection prefix -/
   store : List Nat
-  /-- every storage mutation so far: (thread, lifecycle value when it happened), newest first -/
-  log : List (Nat × L)
+  /-- every storage mutation so far: (thread, lifecycle value when it happened, kind of call), newest first -/
+  log : List (Nat × L × W)
   deriving DecidableEq, Repr
 
 def Shared.release (s : Shared) (i : Nat) : Shared :=
   { s with gateW := if s.gateW = some i then none else s.gateW, gateR := s.gateR.filter (· ≠ i) }
 
-def Shared.putObj (s : Shared) (i o : Nat) : Shared :=
-  { s with store := o :: s.store.filter (· ≠ o), log := (i, s.lc) :: s.log }
+def Shared.putObj (s : Shared) (i : Nat) (w : W) (o : Nat) : Shared :=
+  { s with store := o :: s.store.filter (· ≠ o), log := (i, s.lc, w) :: s.log }
 
-def Shared.delObj (s : Shared) (i o : Nat) : Shared :=
-  { s with store := s.store.filter (· ≠ o), log := (i, s.lc) :: s.log }
+def Shared.delObj (s : Shared) (i : Nat) (w : W) (o : Nat) : Shared :=
+  { s with store := s.store.filter (· ≠ o), log := (i, s.lc, w) :: s.log }
 
 /-- `ensure_mutable`: lifecycle first, then the two read-only flags -/
 def ensureMutable (s : Shared) : Option Res :=
@@ -188,9 +226,10 @@ def stepT (i : Nat) (s : Shared) (t : Thread) : Option (Shared × Thread) :=
   | .mAdmitted => some (s, { t with pc := .mBody t.body })
   | .mBody [] => some (s, { t with pc := .mDisarmed true })
   | .mBody (.rd :: r) => some (s, { t with pc := .mBody r })
-  | .mBody (.put o :: r) => some (s.putObj i o, { t with pc := .mBody r })
-  | .mBody (.del o :: r) => some (s.delObj i o, { t with pc := .mBody r })
+  | .mBody (.put o :: r) => some (s.putObj i .mut o, { t with pc := .mBody r })
+  | .mBody (.del o :: r) => some (s.delObj i .mut o, { t with pc := .mBody r })
   | .mBody (.fail :: _) => some (s, { t with pc := .mDisarmed false })
+  | .mBody (.poison :: r) => some ({ s with lc := poisonL s.lc }, { t with pc := .mBody r })
   | .mDisarmed ok =>
       if !ok && t.perr then some ({ s with lc := poisonL s.lc }, { t with pc := .mRelease ok })
       else some (s, { t with pc := .mRelease ok })
@@ -213,9 +252,10 @@ def stepT (i : Nat) (s : Shared) (t : Thread) : Option (Shared × Thread) :=
   | .cArm => some (s, { t with pc := .cBody t.body })
   | .cBody [] => some (s, { t with pc := .cStore })
   | .cBody (.rd :: r) => some (s, { t with pc := .cBody r })
-  | .cBody (.put o :: r) => some (s.putObj i o, { t with pc := .cBody r })
-  | .cBody (.del o :: r) => some (s.delObj i o, { t with pc := .cBody r })
+  | .cBody (.put o :: r) => some (s.putObj i .close o, { t with pc := .cBody r })
+  | .cBody (.del o :: r) => some (s.delObj i .close o, { t with pc := .cBody r })
   | .cBody (.fail :: _) => some (s, { t with pc := .cFailed })
+  | .cBody (.poison :: _) => none
   | .cFailed => some ({ s with lc := poisonL s.lc }, { t with pc := .cRelease false })
   | .cStore => some ({ s with lc := .closed }, { t with pc := .cRelease true })
   | .cRelease ok => some (s.release i, { t with pc := .done (if ok then .ok else .err) })
@@ -233,8 +273,9 @@ def stepT (i : Nat) (s : Shared) (t : Thread) : Option (Shared × Thread) :=
   | .dDel snap [] => if snap = [] then some (s, { t with pc := .dStore }) else none
   | .dDel snap (.rd :: r) => some (s, { t with pc := .dDel snap r })
   | .dDel snap (.del o :: r) =>
-      if o ∈ snap then some (s.delObj i o, { t with pc := .dDel (snap.filter (· ≠ o)) r }) else none
+      if o ∈ snap then some (s.delObj i .drop o, { t with pc := .dDel (snap.filter (· ≠ o)) r }) else none
   | .dDel _ (.put _ :: _) => none
+  | .dDel _ (.poison :: _) => none
   | .dDel _ (.fail :: _) => some (s, { t with pc := .dRelease false })
   | .dStore => some ({ s with lc := .deleted }, { t with pc := .dRelease true })
   | .dRelease ok => some (s.release i, { t with pc := .done (if ok then .ok else .err) })
@@ -293,7 +334,7 @@ def init (store : List Nat) : Cfg :=
 def Shared.blocked (s : Shared) : Bool := s.lc != .active || s.ro || s.dbRo
 
 /-- number of log entries made by thread `i` -/
-def writesBy (i : Nat) (log : List (Nat × L)) : Nat := (log.filter (fun e => e.1 == i)).length
+def writesBy (i : Nat) (log : List (Nat × L × W)) : Nat := (log.filter (fun e => e.1 == i)).length
 
 /-! ## guard skeletons (evaluated over `Gen/CollectionGuards`) -/
 
@@ -322,6 +363,14 @@ def guardAuto : Nat → List Mk → Bool
   | _, _ => false
 
 def GuardOK (skel : List CollectionGuards.Mk) : Bool := guardAuto 0 skel
+
+/-- the skeleton without the markers that neither suspend nor write -/
+def strip (l : List CollectionGuards.Mk) : List CollectionGuards.Mk := l.filter (· ≠ .lcLoad)
+
+/-- markers allowed between arming and disarming -/
+def isBodyMk : CollectionGuards.Mk → Bool
+  | .mut | .call _ | .awaitPt | .poison => true
+  | _ => false
 
 open CollectionGuards in
 /-- the callee is a method that takes the gate, checks and arms by itself -/
@@ -391,5 +440,14 @@ def innerCallersOK (m : Method) : Bool :=
   else methods.all (fun c =>
     if !c.calls.contains m.name then true
     else GuardOK c.skel || c.name == "close" || c.name == "drop_data" || c.vis == 0 || c.recv == .none || c.recv == .excl)
+
+/-! ## database-level marker order (evaluated over `Gen/Lifecycle.db_*`) -/
+
+def idxOf (m : String) (l : List String) : Nat := l.findIdx (· == m)
+def lastIdxOf (m : String) (l : List String) : Nat := l.length - 1 - l.reverse.findIdx (· == m)
+
+/-- every marker of `ms` occurs, and their first occurrences are in this order -/
+def inOrder (ms : List String) (l : List String) : Bool :=
+  ms.all (fun m => l.contains m) && (ms.map (fun m => idxOf m l)).Pairwise (· < ·)
 
 end AndaVerif.Lifecycle
